@@ -43,6 +43,7 @@ EXPLANATION = ("Theorems C17_* state decode∘encode = heads, splice(encode) = e
 
 DRV = "drv_tm"
 HD, SEP = "^", "_"
+DEFERRED: list = []
 
 
 def decode_ext(ext: str, blank: str):
@@ -134,8 +135,14 @@ def check_pair(ctx: Ctx, m: MNTM, w: str, n: int, origin: str):
         wrong.append(f"native run raises {vn[6:]} (simulation: {vs})")
     if vs.startswith("crash") and not wrong:
         # native undecided within the budget: outside the literal quantifier of the property, but a
-        # non-rejection exception on a valid machine is reported all the same
-        wrong.append(f"the simulation raises {vs[6:]} (native run undecided after {n} calls)")
+        # non-rejection exception on a valid machine is reported all the same — after the run, and
+        # only if no failing input inside the quantifier was found
+        msg = f"the simulation raises {vs[6:]} (native run undecided after {n} calls)"
+        if origin == "replay":
+            wrong.append(msg)
+        else:
+            DEFERRED.append((f"MNTM on {w!r}: " + msg, case))
+            return
     if wrong:
         ctx.prop_fail(f"MNTM on {w!r}: " + "; ".join(wrong), case, None)
         return
@@ -263,6 +270,9 @@ def run(ctx: Ctx):
         k = rng.randrange(0, 9)
         ext = "".join(rng.choice("01#^^__") for _ in range(k))
         check_read_ext(ctx, ext, "random_read_ext")
+    if DEFERRED and ctx.n_prop_fails == 0:
+        for what, case in DEFERRED[:50]:
+            ctx.prop_fail(what, case, None)
 
 
 def replay(ctx: Ctx, path: str) -> int:
